@@ -11,10 +11,15 @@
 (*           i*5+1 recurrence, dummies, rebuild when fill*5 >= mask*3);          *)
 (*           setiter = (pos, used0) with the size check;                         *)
 (*    list : index protocol (listiter / listreviter), no checks.                 *)
-(*  Impl-shaped: __Pyx_dict_iter_next over PyDict_Next (Utility/Optimize.c):     *)
-(*           (pos, used0) with the size check only;  __Pyx_set_iter_next over    *)
-(*           _PySet_NextEntry and IteratorNode's list loops coincide with the    *)
-(*           reference step functions.                                           *)
+(*  Impl-shaped: __Pyx_dict_iter_next over PyDict_Next (Utility/Optimize.c) with *)
+(*           the loop temps of IterationTransform._transform_dict_iteration:     *)
+(*           (pos, orig_length, count): size check, PyDict_Next, then "keys      *)
+(*           changed" when an entry is found although orig_length items were      *)
+(*           produced; it runs on its OWN state `pit` next to the reference's    *)
+(*           `it`, and TLC proves that both answer alike at every reachable step *)
+(*           (PyxDictAgrees).  __Pyx_set_iter_next over _PySet_NextEntry and     *)
+(*           IteratorNode's list loops coincide with the reference step          *)
+(*           functions.                                                          *)
 (* A behaviour is one run of                                                     *)
 (*     for x in C:  act = script[j]; j += 1                                      *)
 (*                  if act is "cont": continue                                   *)
@@ -64,11 +69,16 @@ DictIterNext(d, it) ==
        IF i = 0 THEN [r |-> "stop"]
        ELSE IF it.len = 0 THEN [r |-> "keys"]
        ELSE [r |-> "item", item |-> d.ents[i], it |-> [pos |-> i, used0 |-> it.used0, len |-> it.len - 1]]
-\* implementation-shaped: __Pyx_dict_iter_next_source_is_dict: size check, then PyDict_Next(dict, &pos, ...)
-PyxDictNext(d, pos, used0) ==
-  IF used0 # d.used THEN [r |-> "size"]
-  ELSE LET i == DScan(d, pos + 1) IN
-       IF i = 0 THEN [r |-> "stop"] ELSE [r |-> "item", item |-> d.ents[i], pos |-> i]
+\* implementation-shaped: __Pyx_dict_iter_next_source_is_dict(dict, orig_length, &pos, &count, ...):
+\*   if (orig_length != PyDict_Size(d)) "changed size";  if (!PyDict_Next(d, &pos, ..)) return 0;
+\*   if (count >= orig_length) "keys changed";  count++;  -> item
+\* (PyDict_Next has advanced pos before the count check; the loop ends with the error, pos is dead then)
+PyxDictNext(d, p) ==
+  IF p.olen # d.used THEN [r |-> "size"]
+  ELSE LET i == DScan(d, p.pos + 1) IN
+       IF i = 0 THEN [r |-> "stop"]
+       ELSE IF p.count >= p.olen THEN [r |-> "keys"]
+       ELSE [r |-> "item", item |-> d.ents[i], it |-> [pos |-> i, olen |-> p.olen, count |-> p.count + 1]]
 
 ---------------------------------------------------------------------------
 (* set layout: tab[0..size-1], -1 unused, -2 dummy, else the key (0 <= key < 32: perturb >> 5 = 0) *)
@@ -120,13 +130,16 @@ ListRevNext(l, it) == IF it.idx >= 0 /\ it.idx < Len(l) THEN [r |-> "item", item
                       ELSE [r |-> "stop"]
 
 ---------------------------------------------------------------------------
-VARIABLES kind, n0, cont, it, script, vis, fin, status, nact, nfresh
-vars == <<kind, n0, cont, it, script, vis, fin, status, nact, nfresh>>
+VARIABLES kind, n0, cont, it, pit, script, vis, fin, status, nact, nfresh
+vars == <<kind, n0, cont, it, pit, script, vis, fin, status, nact, nfresh>>
 
 IterNext == IF kind = "dict" THEN DictIterNext(cont, it)
             ELSE IF kind = "set" THEN SetIterNext(cont, it)
             ELSE IF kind = "list" THEN ListIterNext(cont, it)
             ELSE ListRevNext(cont, it)
+
+\* the implementation-shaped step on the implementation's own loop temps (dict loops only)
+PyxNext == PyxDictNext(cont, pit)
 
 Fresh == 8 + nfresh        \* the next key / value that was never in the container (8, 9, 10: slot 0 / 1 / 2 of a set table of 8)
 
@@ -172,16 +185,19 @@ Init == /\ kind \in Kinds /\ n0 \in InitSizes
         /\ it = (IF kind = "dict" THEN [pos |-> 0, used0 |-> n0, len |-> n0]
                  ELSE IF kind = "set" THEN [pos |-> 0, used0 |-> n0]
                  ELSE IF kind = "list" THEN [idx |-> 0] ELSE [idx |-> n0 - 1])
+        \* pos = 0; count = 0; orig_length = PyDict_Size(dict) (__Pyx_dict_iterator); unused for the other kinds
+        /\ pit = (IF kind = "dict" THEN [pos |-> 0, olen |-> n0, count |-> 0] ELSE [pos |-> 0, olen |-> 0, count |-> 0])
         /\ script = <<>> /\ vis = <<>> /\ fin = <<>> /\ status = "run" /\ nact = 0 /\ nfresh = 0
 
 Running == status = "run"
 End(st) == /\ status' = st
-           /\ UNCHANGED <<kind, n0, cont, it, script, vis, fin, nact, nfresh>>
+           /\ UNCHANGED <<kind, n0, cont, it, pit, script, vis, fin, nact, nfresh>>
 IterStop    == Running /\ IterNext.r = "stop" /\ End("else")
 IterErrSize == Running /\ IterNext.r = "size" /\ End("size")
 IterErrKeys == Running /\ IterNext.r = "keys" /\ End("keys")
 Step(act, logged, newstatus, newcont, cost, fr) ==
   /\ it' = IterNext.it /\ fin' = <<IterNext.item>>
+  /\ pit' = (IF kind = "dict" /\ PyxNext.r = "item" THEN PyxNext.it ELSE pit)
   /\ script' = Append(script, act)
   /\ vis' = IF logged THEN Append(vis, IterNext.item) ELSE vis
   /\ status' = newstatus /\ cont' = newcont /\ nact' = nact + cost /\ nfresh' = nfresh + fr
@@ -219,13 +235,15 @@ DictNoRepeatWithoutStore ==
   (kind = "dict" /\ \A i \in 1..Len(script) : \A j \in 1..Len(script[i]) : script[i][j][1] # "set") =>
      \A i, j \in 1..Len(vis) : i # j => vis[i][1] # vis[j][1]
 
-(* implementation-shaped vs reference: __Pyx_dict_iter_next agrees with dictiter at every *)
-(* reachable step except where the reference raises "keys changed" (it has no len counter) *)
-PyxDictAgreesOffHazard ==
+(* implementation-shaped vs reference: __Pyx_dict_iter_next, stepping its own temps, answers *)
+(* exactly like dictiter at every reachable step: same outcome (item / stop / "changed size" / *)
+(* "keys changed"), same item.  There is no hazard set: full agreement.                      *)
+\* the implementation's temps: count never exceeds orig_length (the check fires first), orig_length is fixed
+PyxTempsOK == kind = "dict" => pit.olen = n0 /\ pit.count <= pit.olen /\ pit.count = Len(script)
+PyxDictAgrees ==
   (Running /\ kind = "dict") =>
-     LET p == PyxDictNext(cont, it.pos, it.used0) r == IterNext IN
-     \/ r.r = "keys" /\ p.r = "item"
-     \/ r.r = p.r /\ (r.r = "item" => r.item = p.item /\ r.it.pos = p.pos)
+     LET p == PyxNext r == IterNext IN
+     r.r = p.r /\ (r.r = "item" => r.item = p.item)
 
 Publish == (Dump /\ ~Running) =>
    PrintT("@@" \o ToJson([kind |-> kind, n |-> n0, script |-> script, vis |-> vis, fin |-> fin, status |-> status]))
